@@ -198,6 +198,10 @@ type EngineScript struct {
 	// RetryableEvery > 0 makes every n-th ReceiveProbe return a retryable bad-packet error.
 	RetryableEvery int  `json:"retryableEvery,omitempty"`
 	NoParallel     bool `json:"noParallel,omitempty"`
+	// SendStallTTL > 0: SendProbe for this TTL puts the probe on the wire at once (its responses become
+	// eligible) but returns to the engine SendStallUs later (a sender held up inside the write).
+	SendStallTTL int   `json:"sendStallTTL,omitempty"`
+	SendStallUs  int64 `json:"sendStallUs,omitempty"`
 }
 
 // ScriptResp is one response the scripted driver can hand out.
